@@ -13,14 +13,18 @@ import AsyncsshModel.Model.KexMachine
    hash    ecdh <vc> <vs> <ic> <is> <ks> <qc> <qs> <k>
    hash    rsa  <vc> <vs> <ic> <is> <ks> <trans> <enck> <k>
    range   <x> <p>
+   sigalg  <host key algorithm name>
    group   <pref> <max>
    client  <version> <cookie> <kex> <hostkey> <enc> <mac> <cmp> <script> <delivered>
    server  <version> <cookie> <kex> <hostkey> <enc> <mac> <cmp> <script> <delivered>
      script = `key=value` items joined by `;` — the outcomes of the abstract primitives in this run:
-       client: tk (trusted host key blob) vh (message whose signature verifies) vs (that signature)
+       client: tk (trusted host key blobs, joined by `,`) vk (host key blob of the signer)
+               vh (message whose signature verifies) vs (that signature)
+               ka (host key algorithms the delivered host key blob can be used with, names joined by `,`)
                e (own DH value | none) qc (own EC blob) kc (shared secret k | none)
-               rsa (<encrypted_k>:<k> | none)
-       server: hk (host key blob) sig (signature blob it produces) f (own DH value | none) qs (own EC blob | none)
+               rsa (<encrypted_k>:<k> | err:<class>)
+       server: hk (`<algorithm>:<host key blob>` per host key algorithm, joined by `,`) sigraw (the signature it produces, without the leading algorithm name)
+               f (own DH value | none) qs (own EC blob | none)
                ks (shared secret k | none) trans (transient RSA key blob) rsak (<k> | err:<class>)
 -/
 open AsyncsshModel AsyncsshModel.KexWire AsyncsshModel.Kex
@@ -47,7 +51,8 @@ def showErr : Err → String
   | .disconnect c => s!"disc{c}"
 
 def showNeg (n : Negotiated) : String :=
-  showNames [n.kex, n.encCS, n.encSC, n.macCS, n.macSC, n.cmpCS, n.cmpSC]
+  showNames [n.kex, n.encCS, n.encSC, n.macCS, n.macSC, n.cmpCS, n.cmpSC] ++ "/" ++
+    (if n.hostKey.isEmpty then "." else showName n.hostKey)
 
 def showCPhase : CPhase → String
   | .version => "version" | .kexinit => "kexinit" | .gexGroup => "gexgroup" | .reply => "reply"
@@ -92,14 +97,24 @@ def errOfString : String → Err
 /-- the primitives of one recorded run: identity hash (so `H` *is* the hash input), an ideal signature that
     verifies exactly (trusted key, signed message, signature sent), scripted secret computations -/
 def scriptedCrypto (kv : List (String × String)) : Crypto :=
-  let tk := optBytes kv "tk"
+  let tk : List Bytes := match lookup kv "tk" with
+    | some v => (parseHexList v).getD []
+    | none => []
+  let vk := optBytes kv "vk"
   let vh := optBytes kv "vh"
   let vs := optBytes kv "vs"
+  let hks : List (Name × Bytes) := match lookup kv "hk" with
+    | some v => (v.splitOn ",").filterMap fun item =>
+        match item.splitOn ":" with
+        | [a, b] => (unhex b).map fun x => (strBytes a, x)
+        | _ => none
+    | none => []
   { hashOf := fun _ x => x
-    verify := fun pk m σ => some pk == tk && some m == vh && some σ == vs
-    trusted := fun pk => some pk == tk
-    hostKeyOf := fun _ => (optBytes kv "hk").getD []
-    sign := fun _ _ => (optBytes kv "sig").getD []
+    verify := fun pk m σ => some pk == vk && some m == vh && some σ == vs
+    trusted := fun pk => tk.contains pk
+    keyAlgs := fun _ => match lookup kv "ka" with | some v => parseNames v | none => []
+    hostKeyOf := fun alg => ((hks.find? fun r => r.1 == alg).map (·.2)).getD []
+    signRaw := fun _ _ => (optBytes kv "sigraw").getD []
     dhClientPub := fun _ _ => optInt kv "e"
     dhClientShared := fun _ _ _ => optBytes kv "kc"
     dhServer := fun _ _ _ =>
@@ -116,13 +131,14 @@ def scriptedCrypto (kv : List (String × String)) : Crypto :=
     rsaEncrypt := fun _ =>
       match lookup kv "rsa" with
       | some v =>
+        if v.startsWith "err:" then .error (errOfString (v.drop 4).toString) else
         match v.splitOn ":" with
         | [a, b] =>
           match unhex a, unhex b with
-          | some x, some y => some (x, y)
-          | _, _ => none
-        | _ => none
-      | none => none
+          | some x, some y => .ok (x, y)
+          | _, _ => .error .internal
+        | _ => .error .internal
+      | none => .error .internal
     rsaDecrypt := fun _ =>
       match lookup kv "rsak" with
       | some v => if v.startsWith "err:" then .error (errOfString (v.drop 4).toString) else
@@ -227,6 +243,7 @@ def step (_ : Unit) (ws : List String) : Unit × String :=
       match parseInt x, parseInt p with
       | some x, some p => (if dhClientRangeOk x p then "1" else "0") ++ " " ++ (if dhServerRangeOk x p then "1" else "0")
       | _, _ => "bad-op"
+    | ["sigalg", a] => showName (sigAlgFor (strBytes a))
     | ["group", pref, mx] =>
       match pref.toNat?, mx.toNat? with
       | some a, some b => let gp := groupAt (selectGroup a b); toString gp.1 ++ " " ++ toString gp.2
